@@ -245,3 +245,21 @@ _add(
     deciding={"any": {"histories": 50, "mutations": 1000, "nested_mutations": 200, "hits_compared": 2000, "floods": 2, "evaluations_compared": 300}},
     headline=["histories", "mutations", "nested_mutations", "hits_compared", "floods", "evaluations_compared", "shared_objects_seen"],
 )
+
+_add(
+    "C12",
+    shards=(2, 14),
+    timeout=(900, 5400),
+    title="independence from completion order; context isolation",
+    rule=(
+        "AHB expressions (1-3 parts, valid condition expressions over 6 requirement / 3 hint / 4 format keys, up to 3 sub-expressions abbreviated "
+        "as packages) run through resolver + evaluate_ahb_expression_tree with every harness awaitable (requirement / format evaluators, hints "
+        "provider, package resolver) parked by the completion-order explorer: ALL release orders for runs with <= 5/6 awaitables (DFS), FIFO + "
+        "LIFO + random orders above; result compared with the run in which nothing yields; per-key pairing contracts on evaluate_conditions, "
+        "evaluate_format_constraints, get_hints, gather_if_necessary (tables give neighbouring keys different values); K = 2-5 concurrent "
+        "evaluations with their own data in context-local storage (diagonal log + own baseline); is_valid_expression under yielding evaluators "
+        "must show the evaluators exactly the Cartesian product. distinct non-trivial = distinct expressions run under >= 2 distinct release orders"
+    ),
+    deciding={"any": {"expressions": 100, "distinct_release_orders": 500, "runs_with_concurrently_parked_awaitables": 300, "exhaustively_enumerated_expressions": 5, "contract_multi:evaluate_conditions": 300, "contract_multi:evaluate_format_constraints": 50, "contract_multi:get_hints": 50, "contract_multi:gather_if_necessary": 100, "isolation_runs": 20, "isolation_events": 200, "validity_runs_with_concurrency": 10}},
+    headline=["expressions", "runs", "distinct_release_orders", "exhaustively_enumerated_expressions", "isolation_runs", "validity_runs"],
+)
